@@ -102,6 +102,11 @@ func inAttributeAll(t []brk.TraceEv, at int, inv string) [][2]string {
 			if fmt.Sprint(x["s"]) != fmt.Sprint(e["s"]) || (x["e"] != "Write" && x["e"] != "Flush" && x["e"] != "Log") {
 				continue
 			}
+			if x["e"] == "Flush" && x["ok"] == false {
+				// the shell went on after a flush that failed: the line is lost although its shell was
+				// not ended, and what follows arrives with a gap
+				out = append([][2]string{{"C02", "input:continues-after-failed-flush"}}, out...)
+			}
 			if x["e"] == "Write" && x["ok"] == true && kind != "plain" && kind != "" {
 				out = append([][2]string{{"C02", "input:line-not-flushed"}}, out...)
 				if e["e"] == "Log" {
@@ -315,7 +320,7 @@ func inCampaign(r *ev.Run, prop string) {
 	r.Add("trace_events", nev)
 	r.Add("evaluations", len(traces))
 	r.Add("distinct_nontrivial", len(nontrivial))
-	r.Rule("input-path schedules (enter line, attach a shell with writer kind flusherr/flusher/plain, write and flush results incl. failures, cancellation, closing the input channel) are the projections of walks covering every edge of BrokerIn's TLC graph; each is executed on a real Broker (settled with a promptness check, racing, and through ConnectInOut) and the recorded trace validated by TLC against BrokerInTrace; non-trivial = distinct traces with at least one write")
+	r.Rule("input-path schedules (enter line, attach a shell with writer kind flusherr/flusher/plain/both, write and flush results incl. failures, cancellation, closing the input channel) are the projections of walks covering every edge of BrokerIn's TLC graph; each is executed on a real Broker (settled with a promptness check, racing, and through ConnectInOut) and the recorded trace validated by TLC against BrokerInTrace; non-trivial = distinct traces with at least one write")
 	r.Append("tlc_invariants_checked", "BrokerIn: GapFree LostOnlyOnOwnError OneInHand LogMatchesDelivery FlushBeforeNextTake; liveness Prompt EndsWhenCancelled")
 	r.Assume("line contents come from a seeded family (empty, 1 byte, ~70 KiB, embedded newlines, arbitrary bytes, quotes and % verbs)")
 }
